@@ -7,6 +7,7 @@
 // Every expected value comes from the case; this file executes, projects and compares.
 #include "c11_common.h"
 #include "vrun.h"
+#include "c11_conn_run.h"
 #include <algorithm>
 
 using namespace c11;
@@ -91,7 +92,8 @@ static vrun::Outcome runWs(const vj::Value& c)
 		{
 			if (reply != expReply) return vrun::Outcome::fail("bytes written back " + show(reply) + " expected the pongs " + show(expReply));
 		}
-		else if (reply.size() != expReply.size() + 4 * (size_t)c["npong"].i())
+		else if (reply.size() != expReply.size() + 4 * (size_t)c["npong"].i() &&
+		         !(c["lastempty"].b && reply.size() + 6 == expReply.size() + 4 * (size_t)c["npong"].i()))
 			return vrun::Outcome::fail("bytes written back " + show(reply) + ": length differs from the masked pongs expected");
 		if (c["closed"].b && c["code"].i() != 1005 && code != c["code"].i())
 		{
@@ -291,108 +293,183 @@ static vrun::Outcome runHs(const vj::Value& c)
 		return vrun::Outcome::fail("Sec-WebSocket-Accept " + show(hs["sec-websocket-accept"]) + " expected " + show(c["accept"].bytes()) + " for key " + show(c["key"].bytes()) + " (" + c["variant"].s() + ")");
 	if (lower(hs["upgrade"]) != "websocket" || lower(hs["connection"]).find("upgrade") == std::string::npos)
 		return vrun::Outcome::fail("101 response without Upgrade: websocket / Connection: Upgrade");
+	if (hs.count("sec-websocket-protocol"))
+	{
+		bool offered = false;
+		for (size_t i = 0; i < c["offered"].size(); i++)
+			if (c["offered"][i].bytes() == hs["sec-websocket-protocol"]) offered = true;
+		if (!offered) return vrun::Outcome::fail("the server selected the sub-protocol " + show(hs["sec-websocket-protocol"]) + ", which the client did not offer");
+	}
 	if (srv.served != 1) return vrun::Outcome::fail("serve(WebSocket&) not called exactly once");
 	if (srv.rx.msgs != seqOfBytes(c["out"])) return vrun::Outcome::fail("after the handshake received " + describe(srv.rx.msgs));
 	if (resp.substr(body) != c["echo"].bytes()) return vrun::Outcome::fail("frames written after the handshake " + show(resp.substr(body)) + " expected " + show(c["echo"].bytes()));
 	return vrun::Outcome();
 }
 
-// ---- "hsc": the library as client against a raw listener -------------------------------------------------------------------
-struct RawListener
-{
-	int lfd, port;
-	std::string resp, frames, request;
-	pthread_t th;
-	static void* run(void* p)
-	{
-		RawListener* self = (RawListener*)p;
-		int fd = accept(self->lfd, 0, 0);
-		if (fd < 0) return 0;
-		char b[4096];
-		while (self->request.find("\r\n\r\n") == std::string::npos)
-		{
-			ssize_t n = read(fd, b, sizeof b);
-			if (n <= 0) break;
-			self->request.append(b, (size_t)n);
-		}
-		std::string out = self->resp + self->frames;
-		if (send(fd, out.data(), out.size(), MSG_NOSIGNAL) < 0) {}
-		shutdown(fd, SHUT_WR);
-		for (;;)
-		{
-			ssize_t n = read(fd, b, sizeof b);
-			if (n <= 0) break;
-		}
-		close(fd);
-		return 0;
-	}
-	bool start()
-	{
-		lfd = socket(AF_INET, SOCK_STREAM, 0);
-		if (lfd < 0) return false;
-		sockaddr_in a;
-		memset(&a, 0, sizeof a);
-		a.sin_family = AF_INET;
-		a.sin_addr.s_addr = htonl(INADDR_LOOPBACK);
-		a.sin_port = 0;
-		if (bind(lfd, (sockaddr*)&a, sizeof a) != 0 || listen(lfd, 1) != 0) return false;
-		socklen_t n = sizeof a;
-		getsockname(lfd, (sockaddr*)&a, &n);
-		port = ntohs(a.sin_port);
-		return pthread_create(&th, 0, run, this) == 0;
-	}
-	void stop()
-	{
-		pthread_join(th, 0);
-		close(lfd);
-	}
-};
-
+// ---- "hsc": the library as client against a raw server -------------------------------------------------------------------------
+// The response comes from the case; where it has the accept slot the raw server puts the accept value of the key the client
+// sent (c11::acceptFor); "cut": the server closes after that many bytes; "refused": nobody listens on the port.
 static vrun::Outcome runHsc(const vj::Value& c)
 {
-	RawListener L;
-	L.resp = c["resp"].bytes();
-	L.frames = c["w"].bytes();
-	if (!L.start()) return vrun::Outcome::fail("harness: cannot listen on 127.0.0.1");
-	std::string may = c["connect"].s();
+	std::string may = c["connect"].s(), variant = c["variant"].s();
+	RawAcceptor* acc = theAcceptor();
+	RawAcceptor::Job job;
+	int port = acc->port;
+	bool refused = variant == "refused";
+	if (refused)
+	{
+		int p2 = 0, fd = listenLoopback(p2); // a port that was free a moment ago
+		if (fd < 0) return vrun::Outcome::fail("harness: cannot find a free port");
+		close(fd);
+		port = p2;
+	}
+	else
+	{
+		job.response = c["resp"].bytes();
+		job.cutAt = c["cut"].i();
+		job.after = c["w"].bytes();
+		job.drain = true;
+		acc->start(job);
+	}
 	Received rx;
-	bool ok;
+	bool ok, closedAfter = true;
+	double t0 = nowSec();
 	{
 		WebSocket ws;
 		char url[96];
-		snprintf(url, sizeof url, "ws://127.0.0.1:%d%s", L.port, c["path"].bytes().c_str());
+		snprintf(url, sizeof url, "ws://127.0.0.1:%d%s", port, c["path"].bytes().c_str());
 		ok = ws.connect(url);
 		if (ok) receiveAll(ws, rx);
+		else
+		{
+			closedAfter = ws.closed() && !ws.connected();
+			ws.send("after a failed connect"); // must be a clean no-op
+		}
 		ws.close();
 	}
-	if (!ok)
+	double dt = nowSec() - t0;
+	if (!refused)
 	{
-		// connect() closed its socket; make sure the listener thread is released even if nothing connected
-		int fd = socket(AF_INET, SOCK_STREAM, 0);
-		sockaddr_in a;
-		memset(&a, 0, sizeof a);
-		a.sin_family = AF_INET;
-		a.sin_addr.s_addr = htonl(INADDR_LOOPBACK);
-		a.sin_port = htons((unsigned short)L.port);
-		if (L.request.empty() && connect(fd, (sockaddr*)&a, sizeof a) == 0) {}
-		close(fd);
+		acc->join(job);
+		if (job.fd >= 0) close(job.fd);
 	}
-	L.stop();
-	if (may == "no" && ok) return vrun::Outcome::fail("connect() succeeded on a response that is no upgrade (" + c["variant"].s() + ")");
-	if (may == "yes" && !ok) return vrun::Outcome::fail("connect() failed on a valid 101 response");
+	char b[160];
+	if (may == "no" && ok)
+	{
+		snprintf(b, sizeof b, " (cut %d)", c["cut"].i());
+		return vrun::Outcome::fail("connect() succeeded although the handshake failed: " + variant + b);
+	}
+	if (may == "yes" && !ok) return vrun::Outcome::fail("connect() failed on a valid 101 response with the accept value of its key");
+	if (!ok && !closedAfter) return vrun::Outcome::fail("after a failed connect(), closed() is false or connected() is true");
+	if (dt > 10.0) return vrun::Outcome::fail("connect() took more than 10 s against a server that had answered or closed");
 	if (ok)
 	{
 		if (rx.negative || rx.badAlloc || rx.runaway) return vrun::Outcome::fail("receive loop failed after connect()");
-		if (rx.msgs != seqOfBytes(c["out"])) return vrun::Outcome::fail("after connect() received " + describe(rx.msgs));
+		if (c["cut"].i() < 0 && rx.msgs != seqOfBytes(c["out"])) return vrun::Outcome::fail("after connect() received " + describe(rx.msgs));
 	}
+	if (refused) return vrun::Outcome();
 	// the request the client wrote: start line and the headers RFC 6455 4.1 requires
 	std::string start;
 	std::map<std::string, std::string> hs;
-	if (parseHead(L.request, start, hs) == std::string::npos) return vrun::Outcome::fail("client request incomplete: " + show(L.request));
+	if (parseHead(job.request, start, hs) == std::string::npos) return vrun::Outcome::fail("client request incomplete: " + show(job.request));
 	if (start != "GET " + c["path"].bytes() + " HTTP/1.1") return vrun::Outcome::fail("client request line " + show(start));
 	if (lower(hs["upgrade"]) != "websocket" || lower(hs["connection"]).find("upgrade") == std::string::npos || hs["sec-websocket-version"] != "13" ||
 	    hs["sec-websocket-key"].size() != 24 || hs["host"].empty())
-		return vrun::Outcome::fail("client request lacks a required header: " + show(L.request));
+		return vrun::Outcome::fail("client request lacks a required header: " + show(job.request));
+	return vrun::Outcome();
+}
+
+// ---- "link": a WebSocketServer linked to an HttpServer --------------------------------------------------------------------------
+struct LinkedHttp : public HttpServer
+{
+	int port;
+	LinkedHttp() : HttpServer(-1), port(0) {}
+	void serve(HttpRequest& req, HttpResponse& resp) { resp.put(String("ok:") + req.path()); }
+};
+struct LinkedPair
+{
+	LinkedHttp http;
+	EchoServer ws;
+};
+static LinkedPair* theLinked()
+{
+	static LinkedPair* g = 0;
+	if (!g)
+	{
+		g = new LinkedPair;
+		g->http.link(g->ws);
+		g->http.port = bindFreePort(&g->http);
+		g->http.start(true); // only the HTTP server is started, as documented
+	}
+	return g;
+}
+
+static std::string plainExchange(int fd, const vj::Value& p, const char* what)
+{
+	int status = 0;
+	std::string body;
+	if (!writeAll(fd, p["req"].bytes()) || !readHttpResponse(fd, status, body)) return std::string("no HTTP response to an ordinary request ") + what;
+	char b[200];
+	if (status != p["status"].i()) { snprintf(b, sizeof b, "ordinary request %s: status %d, expected %d", what, status, p["status"].i()); return b; }
+	if (body != p["body"].bytes()) return std::string("ordinary request ") + what + ": body " + show(body) + " expected " + show(p["body"].bytes());
+	return "";
+}
+
+static vrun::Outcome runLink(const vj::Value& c)
+{
+	LinkedPair* L = theLinked();
+	L->ws.rx = Received();
+	int served0 = L->ws.served;
+	int fd = connectLoopback(L->http.port);
+	if (fd < 0) return vrun::Outcome::fail("harness: cannot connect to the HTTP port");
+	std::string err;
+	const vj::Value& pre = c["pre"];
+	for (size_t i = 0; i < pre.size() && err.empty(); i++) err = plainExchange(fd, pre[i], "before the upgrade, on the same connection");
+	std::string resp, head;
+	if (err.empty() && c["upgrade"].b)
+	{
+		if (!writeAll(fd, c["req"].bytes()) || !readHead(fd, head)) err = "no response to an upgrade request on the HTTP port";
+		else if (head.compare(0, 12, "HTTP/1.1 101") != 0) err = "the upgrade request on the HTTP port was not handed over: " + show(head);
+		else if (headValue(head, "sec-websocket-accept") != c["accept"].bytes()) err = "Sec-WebSocket-Accept " + show(headValue(head, "sec-websocket-accept")) + " expected " + show(c["accept"].bytes());
+		// while the WebSocket is open, the port still serves HTTP on other connections
+		if (err.empty())
+		{
+			int fd2 = connectLoopback(L->http.port);
+			if (fd2 < 0) err = "harness: second connection failed";
+			else { err = plainExchange(fd2, c["post"], "on another connection while the WebSocket is open"); close(fd2); }
+		}
+		if (err.empty())
+		{
+			writeAll(fd, c["w"].bytes());
+			shutdown(fd, SHUT_WR);
+			char b[4096];
+			for (;;)
+			{
+				struct pollfd pf;
+				pf.fd = fd; pf.events = POLLIN; pf.revents = 0;
+				if (poll(&pf, 1, 10000) <= 0) { err = "the server did not close the connection after the close frame"; break; }
+				ssize_t n = read(fd, b, sizeof b);
+				if (n <= 0) break;
+				resp.append(b, (size_t)n);
+			}
+		}
+		if (err.empty())
+		{
+			// serve(WebSocket&) has returned when the socket is closed
+			if (L->ws.served != served0 + 1) err = "serve(WebSocket&) of the linked server was not called exactly once";
+			else if (L->ws.rx.msgs != seqOfBytes(c["out"])) err = "the linked WebSocket server received " + describe(L->ws.rx.msgs);
+			else if (resp != c["echo"].bytes()) err = "frames written by the linked server " + show(resp) + " expected " + show(c["echo"].bytes());
+		}
+	}
+	close(fd);
+	if (err.empty() && !c["upgrade"].b)
+	{
+		int fd2 = connectLoopback(L->http.port);
+		if (fd2 < 0) err = "harness: second connection failed";
+		else { err = plainExchange(fd2, c["post"], "on another connection"); close(fd2); }
+		if (err.empty() && L->ws.served != served0) err = "serve(WebSocket&) called without an upgrade request";
+	}
+	if (!err.empty()) return vrun::Outcome::fail(err + " (" + c["variant"].s() + ")");
 	return vrun::Outcome();
 }
 
@@ -404,6 +481,9 @@ static vrun::Outcome runCase(const vj::Value& c)
 	if (k == "send") return runSend(c);
 	if (k == "hs") return runHs(c);
 	if (k == "hsc") return runHsc(c);
+	if (k == "link") return runLink(c);
+	if (k == "conn") return runConn(c);
+	if (k == "hub") return runHub(c);
 	return vrun::Outcome::fail("unknown case kind " + k);
 }
 
